@@ -1294,7 +1294,7 @@ func panicKey(stack string) string {
 	for i, l := range lines {
 		if strings.HasPrefix(l, "package-operator.run/") && !strings.Contains(l, "verifharness") && i+1 < len(lines) {
 			fn := l
-			if j := strings.Index(fn, "("); j > 0 {
+			if j := strings.LastIndex(fn, "("); j > 0 && fn[j-1] != '.' {
 				fn = fn[:j]
 			}
 			fn = strings.TrimPrefix(fn, "package-operator.run/")
